@@ -107,17 +107,7 @@ _MODULE_STATE = {}
 
 
 def snapshot_module_state():
-    for name, mod in list(sys.modules.items()):
-        if not (name == "jade" or name.startswith("jade.")) or mod is None:
-            continue
-        for k, v in list(vars(mod).items()):
-            if k.startswith("__"):
-                continue
-            if isinstance(v, (dict, list, set)) and type(v) in (dict, list, set):
-                try:
-                    _MODULE_STATE[(name, k)] = (v, _copy.deepcopy(v))
-                except Exception:  # noqa
-                    pass
+    snapshot_new_modules()
 
 
 _CACHE_CLEARS = []
@@ -171,6 +161,14 @@ def snapshot_new_modules():
                     _MODULE_STATE[(name, k)] = (v, _copy.deepcopy(v))
                 except Exception:  # noqa
                     pass
+            elif isinstance(v, type) and getattr(v, "__module__", None) == name:
+                # mutable class attributes (a class-level cache / buffer is per-process state, too)
+                for ck, cv in list(vars(v).items()):
+                    if not ck.startswith("__") and type(cv) in (dict, list, set):
+                        try:
+                            _MODULE_STATE[(name, k + "." + ck)] = (cv, _copy.deepcopy(cv))
+                        except Exception:  # noqa
+                            pass
 
 
 snapshot_module_state()
